@@ -1,3 +1,104 @@
-From Coq Require Import QArith.
-Example C02_placeholder : (1 + 1 == 2)%Q.
-Proof. reflexivity. Qed.
+(* PROPERTY C02: for every knot vector of degree p, every j in 0..p, every index i and every u
+   in the interval, Function(U)[i, j](u) equals the Cox-de Boor value N_i,j(u) (and
+   w_i N_i,j / sum_k w_k N_k,j when weights are set); the values are non-negative, vanish
+   outside [u_i, u_(i+j+1)], and for every j the row sums to one; negative indices select rows
+   of the same table, out-of-range index or degree gives IndexError, a parameter outside the
+   interval gives ValueError.
+   Statements only; the proofs live in Proofs/EvalProofs.v. *)
+From Coq Require Import QArith ZArith List Bool Arith.
+From NurbsV Require Import Base.Res Base.QList Spec.KnotSpec Spec.BSpline Model.KV Model.Basis Model.FunctionM.
+From NurbsV Require Import Proofs.EvalProofs.
+Import ListNotations.
+Open Scope Q_scope.
+
+Theorem C02_value : forall k u j jn z,
+  WF (kvec k) (kdeg k) -> kvalid1 k u = true ->
+  valid_second (kdeg k) j = Ok jn ->
+  (- Z.of_nat (knpts k) <= z < Z.of_nat (knpts k))%Z ->
+  exists v, func_eval k None (IInt z) j u = Ok [v] /\
+    v == Nspec (kvec k) (kdeg k) jn
+           (Z.to_nat (if (z <? 0)%Z then (z + Z.of_nat (knpts k))%Z else z)) u.
+Proof. exact EvalProofs.C02_value. Qed.
+Print Assumptions C02_value.
+
+Theorem C02_value_rational : forall k Wt u j jn z,
+  WF (kvec k) (kdeg k) -> kvalid1 k u = true ->
+  length Wt = knpts k -> Forall (fun w => 0 < w) Wt ->
+  valid_second (kdeg k) j = Ok jn ->
+  (- Z.of_nat (knpts k) <= z < Z.of_nat (knpts k))%Z ->
+  exists v, func_eval k (Some Wt) (IInt z) j u = Ok [v] /\
+    v == Rspec (kvec k) (kdeg k) Wt jn
+           (Z.to_nat (if (z <? 0)%Z then (z + Z.of_nat (knpts k))%Z else z)) u.
+Proof. exact EvalProofs.C02_value_rational. Qed.
+Print Assumptions C02_value_rational.
+
+(* the whole row of the table the objects index into *)
+Theorem C02_row : forall k j u,
+  WF (kvec k) (kdeg k) -> (j <= kdeg k)%nat -> kvalid1 k u = true ->
+  exists r, basis_row k j u = Ok r /\ length r = knpts k /\
+    forall i, (i < knpts k)%nat -> nth i r 0 == Nspec (kvec k) (kdeg k) j i u.
+Proof. exact EvalProofs.basis_row_spec. Qed.
+Print Assumptions C02_row.
+
+(* properties of the Cox-de Boor functions themselves (the specification) *)
+Theorem C02_nonneg : forall U p, WF U p -> forall u, in_range U p u = true ->
+  forall j i, 0 <= Nspec U p j i u.
+Proof. exact EvalProofs.Nspec_nonneg. Qed.
+Print Assumptions C02_nonneg.
+
+Theorem C02_unity : forall U p, WF U p -> forall u, in_range U p u = true ->
+  qsum (map (fun i => Nspec U p p i u) (seq 0 (npts_of U p))) == 1.
+Proof. exact EvalProofs.Nspec_unity. Qed.
+Print Assumptions C02_unity.
+
+Theorem C02_unity_every_degree : forall U p, WF U p -> forall u, in_range U p u = true ->
+  forall j, (j <= p)%nat ->
+  qsum (map (fun i => Nspec U p j i u) (seq 0 (npts_of U p))) == 1.
+Proof. exact EvalProofs.Nspec_unity_deg. Qed.
+Print Assumptions C02_unity_every_degree.
+
+Theorem C02_support : forall U p, WF U p -> forall u, in_range U p u = true ->
+  forall j i, ~ (nthq U i <= u <= nthq U (i + j + 1)) -> Nspec U p j i u == 0.
+Proof. exact EvalProofs.Nspec_support. Qed.
+Print Assumptions C02_support.
+
+Theorem C02_le_1 : forall U p, WF U p -> forall u, in_range U p u = true ->
+  forall j i, (j <= p)%nat -> (i < npts_of U p)%nat -> Nspec U p j i u <= 1.
+Proof. exact EvalProofs.Nspec_le_1. Qed.
+Print Assumptions C02_le_1.
+
+(* values returned by the model *)
+Theorem C02_row_unity : forall k j u r,
+  WF (kvec k) (kdeg k) -> (j <= kdeg k)%nat -> kvalid1 k u = true ->
+  basis_row k j u = Ok r -> qsum r == 1.
+Proof. exact EvalProofs.C02_row_unity. Qed.
+Print Assumptions C02_row_unity.
+
+Theorem C02_row_bounds : forall k j u r i,
+  WF (kvec k) (kdeg k) -> (j <= kdeg k)%nat -> kvalid1 k u = true ->
+  basis_row k j u = Ok r -> (i < knpts k)%nat -> 0 <= nth i r 0 <= 1.
+Proof. exact EvalProofs.C02_row_bounds. Qed.
+Print Assumptions C02_row_bounds.
+
+(* rejections *)
+Theorem C02_bad_index : forall k Wo u j z,
+  ~ (- Z.of_nat (knpts k) <= z < Z.of_nat (knpts k))%Z ->
+  func_eval k Wo (IInt z) j u = Err IndexError.
+Proof. exact EvalProofs.C02_bad_index. Qed.
+Print Assumptions C02_bad_index.
+
+Theorem C02_bad_degree : forall k Wo i u j,
+  ~ (0 <= j <= Z.of_nat (kdeg k))%Z -> valid_first (knpts k) i = Ok tt ->
+  func_eval k Wo i j u = Err IndexError.
+Proof. exact EvalProofs.C02_bad_degree. Qed.
+Print Assumptions C02_bad_degree.
+
+Theorem C02_outside : forall k Wo i u j jn,
+  valid_first (knpts k) i = Ok tt -> valid_second (kdeg k) j = Ok jn ->
+  kvalid1 k u = false -> func_eval k Wo i j u = Err ValueError.
+Proof. exact EvalProofs.C02_outside. Qed.
+Print Assumptions C02_outside.
+
+Example C02_nonvacuous :
+  WF (kvec ex_kv) (kdeg ex_kv) /\ kvalid1 ex_kv (1#3) = true /\ valid_second (kdeg ex_kv) 1 = Ok 1%nat.
+Proof. destruct ex_hyps as (W & Hv & _ & _ & _ & _ & _ & _ & Hs). repeat split; assumption. Qed.
